@@ -1,23 +1,22 @@
 """Create the generated Coq inputs (coq/gen/*.v) from the current /repo tree so that a clean
-build has them; each check regenerates its own files again on every run."""
+build has them; each check regenerates its own files again on every run.  Every module under
+lib/props may define pregen(ctx)."""
+import glob
+import importlib
 import os
 import sys
 sys.path.insert(0, "/verif")
 from lib import common as C  # noqa: E402
 
-
-def c20():
-    from lib.props import c20 as m
-    hb = C.build_harness("deeplinks")
-    os.makedirs(C.BUILD + "/run/C20", exist_ok=True)
-    cases = C.BUILD + "/run/C20/pregen.txt"
-    rc, out = C.sh([hb, "hosts", cases])
-    rows = C.read_tsv(cases)
-    m.write_hosts(rows[0][1:])
-
-
-for f in [c20]:
+for path in sorted(glob.glob("/verif/lib/props/*.py")):
+    name = os.path.basename(path)[:-3]
+    if name.startswith("_"):
+        continue
     try:
-        f()
+        mod = importlib.import_module("lib.props." + name)
+        if hasattr(mod, "pregen"):
+            ctx = C.Ctx(name.upper(), "quick", 1)
+            mod.pregen(ctx)
+            print("pregen:", name, "ok")
     except Exception as e:  # a tree that does not build is reported by the checks themselves
-        print("pregen:", f.__name__, "failed:", e)
+        print("pregen:", name, "failed:", str(e)[:300])
